@@ -70,6 +70,44 @@ def jSkel (l : List Skel) : Json :=
 def natList (j : Json) (k : String) : Except String (List Nat) := do
   (← argArr j k).mapM (fun x => fromJson? x)
 
+def svOfJson (j : Json) : Except String SV := do
+  let k ← argStr j "k"
+  match k with
+  | "none" => pure .none
+  | "bool" => pure (.bool (← argBool j "v"))
+  | "int" => pure (.int (← argInt j "v"))
+  | "str" => pure (.str (← argChars j "v"))
+  | "bytes" => pure (.bytes (← natList j "v"))
+  | "date" => match ← natList j "v" with
+    | [y, m, d] => pure (.date ⟨y, m, d⟩)
+    | _ => throw "date: 3 fields"
+  | "datetime" => match ← natList j "v" with
+    | [y, m, d, h, mi, s, us] => pure (.datetime ⟨y, m, d⟩ ⟨h, mi, s, us⟩)
+    | _ => throw "datetime: 7 fields"
+  | "time" => match ← natList j "v" with
+    | [h, mi, s, us] => pure (.time ⟨h, mi, s, us⟩)
+    | _ => throw "time: 4 fields"
+  | _ => throw "sv: kind"
+
+def elemOfJson (j : Json) : Except String Elem := do
+  match j.getObjVal? "scalar" with
+  | .ok v => pure (.scalar (← svOfJson v))
+  | .error _ =>
+    let pk ← (← argArr j "entity").mapM svOfJson
+    pure (.entity pk)
+
+def varOfJson (j : Json) : Except String VarVal := do
+  match j.getObjVal? "one" with
+  | .ok v => pure (.one (← elemOfJson v))
+  | .error _ => pure (.seq (← (← argArr j "seq").mapM elemOfJson))
+
+def jDB : Option DB → Json
+  | none => .null
+  | some .null => Json.mkObj [("db", "null")]
+  | some (.int i) => Json.mkObj [("db", "int"), ("v", toJson i)]
+  | some (.text s) => Json.mkObj [("db", "text"), ("v", jstr s)]
+  | some (.blob b) => Json.mkObj [("db", "blob"), ("v", toJson b)]
+
 def handle (j : Json) : Except String Json := do
   let op ← argStr j "op"
   match op with
@@ -151,6 +189,25 @@ def handle (j : Json) : Except String Json := do
         | .arr #[k, c] => pure ((← fromJson? k : Nat), (← fromJson? c : Nat))
         | _ => throw "make_params: pairs")
       pure (toJson (makeParams [] occ))
+  | "param_eval" =>
+      -- Param.eval (indexing + SQLite converter): values = list of variables (index = varkey), key = [var, i|null, j|null]
+      let vars ← (← argArr j "values").mapM varOfJson
+      let key ← argArr j "key"
+      let optNat (x : Json) : Except String (Option Nat) := match x with
+        | .null => pure none
+        | v => do pure (some (← fromJson? v))
+      match key with
+      | [v, i, jj] =>
+        let r := paramEvalRaw (fun k => vars[k]?) (← fromJson? v) (← optNat i) (← optNat jj)
+        pure (jDB (r.map sqliteBind))
+      | _ => throw "param_eval: key"
+  | "sqlite_const" =>
+      let style ← argStyle j
+      let sv ← svOfJson (← j.getObjVal? "sv")
+      let txt := sqliteConstText style sv
+      pure (Json.mkObj [("text", match txt with | some t => jstr t | none => Json.null),
+                        ("read", jDB ((txt.bind (expandPercent style)).bind sqliteRead)),
+                        ("bind", jDB (some (sqliteBind sv)))])
   | "like" => pure (.bool (likeMatch (← argOptChar j "esc") (← argChars j "pat") (← argChars j "s")))
   | "sql_replace" => pure (jstr (sqlReplace (← argChars j "old") (← argChars j "new") (← argChars j "s")))
   | "like_ast" =>
